@@ -1105,7 +1105,7 @@ VALUE_PARAMS = {
 def _ordered_calls(stmts):
     """Calls in execution-like source order: statement by statement (headers
     before bodies), by position inside one simple statement."""
-    from .core import iter_child_stmts
+    from .core import iter_child_stmts, calls_postorder
     out = []
     for st in stmts:
         if isinstance(st, (ast.FunctionDef, ast.AsyncFunctionDef,
@@ -1113,7 +1113,7 @@ def _ordered_calls(stmts):
             continue
         kids = list(iter_child_stmts(st))
         if not kids:
-            out += sorted(calls_in(st), key=lambda c: (c.lineno, c.col_offset))
+            out += calls_postorder(st)
             continue
         hdr = []
         for field, value in ast.iter_fields(st):
@@ -1121,8 +1121,8 @@ def _ordered_calls(stmts):
                 continue
             for sub in (value if isinstance(value, list) else [value]):
                 if isinstance(sub, ast.AST):
-                    hdr += calls_in(sub)
-        out += sorted(hdr, key=lambda c: (c.lineno, c.col_offset))
+                    hdr += calls_postorder(sub)
+        out += hdr
         out += _ordered_calls(kids)
     return out
 
